@@ -282,7 +282,8 @@ def run(scn):
 def main():
     if os.environ.get('VERIF_RANDOMIZE'):
         import jsonvals
-        jsonvals.randomize(int(os.environ['VERIF_RANDOMIZE']) + len(sys.argv[1]) + hash(os.path.basename(sys.argv[1])) % 1000)
+        jsonvals.randomize(int(os.environ['VERIF_RANDOMIZE']) + len(sys.argv[1]) + hash(os.path.basename(sys.argv[1])) % 1000,
+                           keep=('i1',))        # VerifScopedChild is registered for the integer 1: the tag i1 keeps its representative
     scns = json.load(open(sys.argv[1]))
     from _guard import guarded
     traces = [guarded(run)(s) for s in scns]
